@@ -260,6 +260,7 @@ where
     I: DoubleEndedIterator<Item = T> + ExactSizeIterator,
 {
     let mut parts = Vec::new();
+    let script = if script == "-" { "" } else { script };
     for (i, ch) in script.chars().enumerate() {
         let y = if ch == 'f' { it.next() } else { it.next_back() };
         let hint = sh(it.size_hint(), it.len());
@@ -721,17 +722,15 @@ impl Comp for TinyComp {
         match (op, sa.len()) {
             ("cmp", 3) => {
                 let (x, y): (u64, u64) = (sa[1].parse().ok()?, sa[2].parse().ok()?);
-                return Some(format!(
-                    "{}",
-                    match sa[0] {
-                        "eq" => t.eq(&x, &y),
-                        "le" => t.le(&x, &y),
-                        "lt" => t.lt(&x, &y),
-                        "gt" => t.gt(&x, &y),
-                        "ge" => t.ge(&x, &y),
-                        _ => return None,
-                    }
-                ));
+                let b = match sa[0] {
+                    "eq" => t.eq(&x, &y),
+                    "le" => t.le(&x, &y),
+                    "lt" => t.lt(&x, &y),
+                    "gt" => t.gt(&x, &y),
+                    "ge" => t.ge(&x, &y),
+                    _ => return None,
+                };
+                return Some(format!("{} {} {}", b, t.estimate(&x), t.estimate(&y)));
             }
             ("inck", 1) => {
                 let k: u64 = sa[0].parse().ok()?;
@@ -818,6 +817,7 @@ impl<K: KeyKind, S: BuildHasher + Clone> Comp for WtComp<K, S> {
         }
         let c = &mut self.c;
         Some(match (op, &a[..]) {
+            ("debug", []) => "()".into(),
             ("windowlen", []) => format!("{}", c.window_cache_len()),
             ("windowcap", []) => format!("{}", c.window_cache_cap()),
             ("mainlen", []) => format!("{}", c.main_cache_len()),
@@ -864,13 +864,13 @@ struct SamComp {
 impl Comp for SamComp {
     fn op(&mut self, op: &str, sa: &[&str]) -> Option<String> {
         let s = &mut self.s;
-        let ints: Vec<i64> = sa.iter().filter_map(|x| x.parse().ok()).collect();
+        let int = |i: usize| -> Option<i64> { sa.get(i)?.parse().ok() };
         Some(match (op, sa.len()) {
             ("sinc", 2) => {
-                s.increment_hashed_key(sa[0].parse().ok()?, ints[1]);
+                s.increment_hashed_key(sa[0].parse().ok()?, int(1)?);
                 "()".into()
             }
-            ("supd", 2) => format!("{}", s.update_hashed_key(sa[0].parse().ok()?, ints[1])),
+            ("supd", 2) => format!("{}", s.update_hashed_key(sa[0].parse().ok()?, int(1)?)),
             ("srem", 1) => match s.remove_hashed_key(sa[0].parse().ok()?) {
                 None => "none".into(),
                 Some(c) => format!("some {}", c),
@@ -880,10 +880,10 @@ impl Comp for SamComp {
                 "()".into()
             }
             ("smax", 1) => {
-                s.update_max_cost(ints[0]);
+                s.update_max_cost(int(0)?);
                 "()".into()
             }
-            ("room", 1) => format!("{}", s.room_left(ints[0])),
+            ("room", 1) => format!("{}", s.room_left(int(0)?)),
             ("getmax", 0) => format!("{}", s.get_max_cost()),
             ("fill", _) => {
                 let pairs: Vec<(u64, i64)> = sa
